@@ -31,6 +31,8 @@ func init() {
 					// the node agent's side of the protocol
 					runDaemonWorld(c, "C03", nil)
 				}
+				// the closed loop: the real Reconcile against a fake cloud (monitors)
+				runIpamLoops(c, id)
 			},
 			Exec2: func(c *Ctx, ops []string) ([]string, []string) {
 				if len(ops) > 0 && strings.HasPrefix(ops[0], "dm.") {
